@@ -137,7 +137,14 @@ def gen_worker(arg):
                         'focus': (solve.ob_to_smt2([ob.hyps[i_] for i_ in ob.using], ob.goal) if getattr(ob, 'using', None) and not triv else None)})
         return {'info': info, 'obs': obs, 'assumed': sorted(eng.assumed_used)}
     except Exception:
-        return {'crash': traceback.format_exc()[-1200:]}
+        out = {'crash': traceback.format_exc()[-1200:]}
+        try:
+            c = REGISTRY[key]
+            out['function'] = c.key
+            out['sha256'] = front.find_function(c.file, c.source or c.qual)[2]
+        except Exception:
+            pass
+        return out
 
 
 class Checker:
@@ -178,7 +185,14 @@ class Checker:
                 else:
                     self.problems.append('contract cannot attach: %s' % out['attach_error'])
             elif out.get('crash'):
-                self.problems.append('checker crash while generating VCs for %s: %s' % (key[1], out['crash']))
+                fkey = out.get('function')
+                base = self.baseline()['functions'].get(fkey) if fkey else None
+                if base is not None and out.get('sha256') != base:
+                    # an internal error of the engine on a CHANGED function (a value of an unexpected kind reached a theory function): the
+                    # proof does not apply to this text; not a checker problem of the unchanged tree, the bounded stand-in decides
+                    self.fallbacks.append({'function': fkey, 'reason': 'changed function: the engine could not process it (%s)' % out['crash'].strip().splitlines()[-1][:200], 'sha256': out.get('sha256')})
+                else:
+                    self.problems.append('checker crash while generating VCs for %s: %s' % (key[1], out['crash']))
             elif out.get('unsupported'):
                 self.fallbacks.append({'function': out['function'], 'reason': 'unsupported construct: %s' % out['unsupported'], 'sha256': out.get('sha256')})
             else:
